@@ -936,8 +936,8 @@ class SklearnEKFAdapter(BaseEstimator):
 
             arglist = sorted(list(mapping.keys()))
 
-            params["sensor_noises"][key] = dict(
-                self._inverse_flatten_dict_diagonal(sensor, arglist)
+            params["sensor_noises"][key] = nearest_positive_definite(
+                dict(self._inverse_flatten_dict_diagonal(sensor, arglist))
             )
 
         return params
